@@ -165,6 +165,11 @@ def analyse(s, finals):
                 seqs.setdefault(key, []).append(STATES[st])
                 if last.get(key) == st:
                     bad.append(("repeated-state", f"{key} announced {st} twice in a row"))
+                if last.get(key) == "CONNECTED" and st == "CONNECTING" and not getattr(s, "has_tcp", False):
+                    # the documented machine has no CONNECTED -> CONNECTING edge; the assertion admits it for ONE situation, named in
+                    # its comment: the TCP socket of the selected pair died.  These sessions have UDP candidates only.
+                    bad.append(("undocumented-transition", f"{key} announced CONNECTED -> CONNECTING in a UDP-only session (no socket "
+                                                           f"can have failed): {e[:90]}"))
                 last[key] = st
                 if st in ("CONNECTED", "READY"):
                     if not have:
